@@ -23,7 +23,7 @@ use litep2p::{
                 ConnectionType, KademliaMessage, KademliaPeer, Key, VerifKadDump, VerifKademlia, VerifProbe,
                 VerifProbeEntry,
             },
-            ConfigBuilder, KademliaEvent, KademliaHandle, Quorum, Record, RecordKey,
+            ConfigBuilder, KademliaEvent, KademliaHandle, Quorum, Record, RecordKey, RoutingTableUpdateMode,
         },
         verif::{VerifConnection, VerifServiceInput},
         TransportService,
@@ -129,12 +129,20 @@ fn varint_unframe(data: &[u8]) -> Option<&[u8]> {
 #[derive(Clone, Debug)]
 pub enum Ev {
     AddKnown(u64, u64),
-    Establish(u64),
+    /// peer, inbound (Endpoint::Listener: no address is recorded)
+    Establish(u64, u64),
+    /// every connection of the peer closes
     Close(u64),
+    /// a second connection to a peer that has one (the service keeps it as secondary and tells
+    /// the protocol nothing)
+    Establish2(u64),
+    /// one of two connections closes (0 = the primary, 1 = the secondary): the peer stays connected
+    CloseOne(u64, u64),
     /// requester, target, kind (0 FIND_NODE, 1 GET_VALUE, 2 GET_PROVIDERS)
     Request(u64, u64, u64),
     InboundEof(u64),
-    DialFail(u64, u64),
+    /// peer, number of addresses, with the /p2p suffix (= the addresses add_known_peer stored)
+    DialFail(u64, u64, u64),
     FindNodeCmd(u64),
     /// responder, peers of the reply with their address counts
     Respond(u64, Vec<(u64, u64)>),
@@ -149,11 +157,13 @@ impl Ev {
     fn encode(&self) -> (u64, Vec<u64>) {
         match self {
             Ev::AddKnown(p, na) => (1, vec![*p, *na]),
-            Ev::Establish(p) => (2, vec![*p]),
+            Ev::Establish(p, l) => (2, vec![*p, *l]),
             Ev::Close(p) => (3, vec![*p]),
+            Ev::Establish2(p) => (12, vec![*p]),
+            Ev::CloseOne(p, w) => (13, vec![*p, *w]),
             Ev::Request(p, t, kind) => (4, vec![*p, *t, *kind]),
             Ev::InboundEof(p) => (5, vec![*p]),
-            Ev::DialFail(p, na) => (6, vec![*p, *na]),
+            Ev::DialFail(p, na, sfx) => (6, vec![*p, *na, *sfx]),
             Ev::FindNodeCmd(t) => (7, vec![*t]),
             Ev::Respond(p, l) => {
                 let mut a = vec![*p];
@@ -171,11 +181,15 @@ impl Ev {
     fn decode(tag: u64, a: &[u64]) -> Option<Ev> {
         Some(match (tag, a.len()) {
             (1, 2) => Ev::AddKnown(a[0], a[1]),
-            (2, 1) => Ev::Establish(a[0]),
+            (2, 1) => Ev::Establish(a[0], 0),
+            (2, 2) => Ev::Establish(a[0], a[1]),
             (3, 1) => Ev::Close(a[0]),
+            (12, 1) => Ev::Establish2(a[0]),
+            (13, 2) => Ev::CloseOne(a[0], a[1]),
             (4, 3) => Ev::Request(a[0], a[1], a[2]),
             (5, 1) => Ev::InboundEof(a[0]),
-            (6, 2) => Ev::DialFail(a[0], a[1]),
+            (6, 2) => Ev::DialFail(a[0], a[1], 0),
+            (6, 3) => Ev::DialFail(a[0], a[1], a[2]),
             (7, 1) => Ev::FindNodeCmd(a[0]),
             (8, n) if n % 2 == 1 => Ev::Respond(a[0], a[1..].chunks(2).map(|c| (c[0], c[1])).collect()),
             (9, 1) => Ev::PutToPeers(a[0]),
@@ -245,7 +259,8 @@ pub fn decode_case(c: &[u64]) -> Option<(Header, Vec<Ev>)> {
 
 fn ev_peers(e: &Ev) -> Vec<u64> {
     match e {
-        Ev::AddKnown(p, _) | Ev::Establish(p) | Ev::Close(p) | Ev::InboundEof(p) | Ev::DialFail(p, _) => vec![*p],
+        Ev::AddKnown(p, _) | Ev::Establish(p, _) | Ev::Close(p) | Ev::InboundEof(p) | Ev::DialFail(p, _, _) => vec![*p],
+        Ev::Establish2(p) | Ev::CloseOne(p, _) => vec![*p],
         Ev::FindNodeCmd(p) | Ev::PutToPeers(p) | Ev::Mgr(p, _) => vec![*p],
         Ev::Request(p, t, _) => vec![*p, *t],
         Ev::Respond(p, l) => std::iter::once(*p).chain(l.iter().map(|x| x.0)).collect(),
@@ -269,7 +284,9 @@ pub struct Sys {
     probe: VerifProbe,
     fut: Pin<Box<dyn Future<Output = ()>>>,
     finished: bool,
-    conns: HashMap<u64, VerifConnection>,
+    /// the connections of a peer as the service sees them: [primary] or [primary, secondary]
+    conns: HashMap<u64, Vec<VerifConnection>>,
+    manual: bool,
     dummy: VerifConnection,
     next_cid: usize,
     next_inbound: usize,
@@ -291,7 +308,10 @@ fn conn_code(c: ConnectionType) -> u64 {
 
 impl Sys {
     pub fn new(h: &Header) -> Option<Self> {
-        if h.k == 0 || h.k > 64 {
+        // k >= 100: routing-table update mode Manual, replication factor k - 100
+        let manual = h.k >= 100;
+        let k = h.k % 100;
+        if k == 0 || k > 64 {
             return None;
         }
         let peers: Vec<PeerId> = h.seeds.iter().map(|s| peer_from_seed(*s)).collect();
@@ -310,7 +330,14 @@ impl Sys {
             ProtocolCodec::UnsignedVarint(Some(70 * 1024)),
             Duration::from_secs(3600 * 24),
         );
-        let (config, handle) = ConfigBuilder::new().with_replication_factor(h.k as usize).build();
+        let (config, handle) = ConfigBuilder::new()
+            .with_replication_factor(k as usize)
+            .with_routing_table_update_mode(if manual {
+                RoutingTableUpdateMode::Manual
+            } else {
+                RoutingTableUpdateMode::Automatic
+            })
+            .build();
         let probe = VerifProbe::default();
         let kad = VerifKademlia::new(service, config, probe.clone());
         let fut: Pin<Box<dyn Future<Output = ()>>> = Box::pin(async move {
@@ -318,7 +345,7 @@ impl Sys {
         });
         let dummy = input.dummy_connection(9_999_999);
         let mut s = Sys {
-            k: h.k,
+            k,
             peers,
             raw,
             ids,
@@ -330,6 +357,7 @@ impl Sys {
             fut,
             finished: false,
             conns: HashMap::new(),
+            manual,
             dummy,
             next_cid: 1,
             next_inbound: INBOUND_BASE,
@@ -377,10 +405,12 @@ impl Sys {
                 self.dump = d;
             }
         }
-        for (p, c) in self.conns.iter_mut() {
-            let reqs = c.take_open_requests();
-            if !reqs.is_empty() {
-                self.pending_subs.entry(*p).or_default().extend(reqs);
+        for (p, cs) in self.conns.iter_mut() {
+            for c in cs.iter_mut() {
+                let reqs = c.take_open_requests();
+                if !reqs.is_empty() {
+                    self.pending_subs.entry(*p).or_default().extend(reqs);
+                }
             }
         }
         let waker = futures::task::noop_waker();
@@ -455,24 +485,55 @@ impl Sys {
                     ops.push(vec![10, *p, *na]);
                 }
             }
-            Ev::Establish(p) => {
+            Ev::Establish(p, inbound) => {
                 if !self.conns.contains_key(p) {
                     let cid = self.next_cid;
                     self.next_cid += 1;
                     let addr = self.addrs(*p, 1).pop().unwrap();
-                    if let Some(c) = self.input.connection_established(self.peers[*p as usize], cid, addr, 512) {
-                        self.conns.insert(*p, c);
+                    let c = if *inbound != 0 {
+                        self.input.connection_established_inbound(self.peers[*p as usize], cid, addr, 512)
+                    } else {
+                        self.input.connection_established(self.peers[*p as usize], cid, addr, 512)
+                    };
+                    if let Some(c) = c {
+                        self.conns.insert(*p, vec![c]);
                         let pending = pending_before.contains(p);
-                        ops.push(vec![11, *p, 1, pending as u64]);
+                        ops.push(vec![11, *p, (*inbound == 0) as u64, pending as u64]);
                         if pending {
                             self.mpeers.insert(*p);
                         }
                     }
                 }
             }
-            Ev::Close(p) => {
-                if let Some(c) = self.conns.remove(p) {
+            Ev::Establish2(p) => {
+                // the service keeps a second connection as secondary and reports nothing; a third
+                // one is ignored
+                if self.conns.get(p).map_or(false, |cs| cs.len() == 1) {
+                    let cid = self.next_cid;
+                    self.next_cid += 1;
+                    let addr = self.addrs(*p, 2).pop().unwrap();
+                    if let Some(c) = self.input.connection_established(self.peers[*p as usize], cid, addr, 512) {
+                        self.conns.get_mut(p).unwrap().push(c);
+                    }
+                }
+            }
+            Ev::CloseOne(p, which) => {
+                // one of two connections closes: the peer stays connected, the protocol hears nothing
+                if self.conns.get(p).map_or(false, |cs| cs.len() == 2) {
+                    let cs = self.conns.get_mut(p).unwrap();
+                    let c = cs.remove((*which as usize).min(1));
                     self.input.connection_closed(self.peers[*p as usize], &c);
+                    if *which == 0 {
+                        self.pending_subs.remove(p);
+                    }
+                }
+            }
+            Ev::Close(p) => {
+                if let Some(cs) = self.conns.remove(p) {
+                    // the secondary first: only the last close is reported to the protocol
+                    for c in cs.iter().rev() {
+                        self.input.connection_closed(self.peers[*p as usize], c);
+                    }
                     self.pending_subs.remove(p);
                     ops.push(vec![12, *p]);
                     self.mpeers.remove(p);
@@ -489,7 +550,7 @@ impl Sys {
                 carrier.0.lock().unwrap().rq.extend(varint_frame(&msg));
                 let id = self.next_inbound;
                 self.next_inbound += 1;
-                let conn = self.conns.get(p).unwrap_or(&self.dummy);
+                let conn = self.conns.get(p).and_then(|cs| cs.first()).unwrap_or(&self.dummy);
                 if self.input.substream_opened(self.peers[*p as usize], None, id, Box::new(carrier.clone()), conn) {
                     ops.push(vec![13, *p]);
                     self.mpeers.insert(*p);
@@ -502,15 +563,20 @@ impl Sys {
                 carrier.0.lock().unwrap().eof = true;
                 let id = self.next_inbound;
                 self.next_inbound += 1;
-                let conn = self.conns.get(p).unwrap_or(&self.dummy);
+                let conn = self.conns.get(p).and_then(|cs| cs.first()).unwrap_or(&self.dummy);
                 if self.input.substream_opened(self.peers[*p as usize], None, id, Box::new(carrier), conn) {
                     ops.push(vec![13, *p]);
                     ops.push(vec![12, *p]);
                     self.mpeers.remove(p);
                 }
             }
-            Ev::DialFail(p, na) => {
-                if self.input.dial_failure(self.peers[*p as usize], self.addrs(*p, *na)) {
+            Ev::DialFail(p, na, sfx) => {
+                let peer = self.peers[*p as usize];
+                let mut ad = self.addrs(*p, *na);
+                if *sfx != 0 {
+                    ad = ad.into_iter().map(|a| a.with(multiaddr::Protocol::P2p(peer.into()))).collect();
+                }
+                if self.input.dial_failure(peer, ad) {
                     ops.push(vec![15, *p, *na]);
                 }
             }
@@ -519,7 +585,7 @@ impl Sys {
             }
             Ev::Respond(p, l) => {
                 let sid = self.pending_subs.get_mut(p).and_then(|q| q.pop_front());
-                if let (Some(sid), Some(conn)) = (sid, self.conns.get(p)) {
+                if let (Some(sid), Some(conn)) = (sid, self.conns.get(p).and_then(|cs| cs.first())) {
                     let peers: Vec<KademliaPeer> = l.iter().map(|(q, na)| self.kad_peer(*q, *na)).collect();
                     let msg = KademliaMessage::find_node_response(vec![1u8, 2, 3], peers);
                     let carrier = Carrier::default();
@@ -551,6 +617,10 @@ impl Sys {
         // what update_routing_table saw
         for ev in events {
             if let KademliaEvent::RoutingTableUpdate { peers } = ev {
+                if self.manual {
+                    // Manual mode: the user is told, the table is not written
+                    continue;
+                }
                 let l = respond_list.clone().unwrap_or_default();
                 let mut op = vec![14, peers.len() as u64];
                 for q in peers {
@@ -624,7 +694,7 @@ impl Sys {
     }
 
     pub fn header(&self, out: &mut Vec<u64>, seeds: &[u64]) {
-        out.extend([0, self.k, seeds.len() as u64]);
+        out.extend([0, self.k + if self.manual { 100 } else { 0 }, seeds.len() as u64]);
         for (i, s) in seeds.iter().enumerate() {
             out.push(*s);
             out.extend(self.limbs(i));
@@ -633,6 +703,12 @@ impl Sys {
 
     pub fn connected(&self, p: u64) -> bool {
         self.conns.contains_key(&p)
+    }
+
+    pub fn with_connections(&self, n: usize) -> Vec<u64> {
+        let mut v: Vec<u64> = self.conns.iter().filter(|(_, cs)| cs.len() == n).map(|(p, _)| *p).collect();
+        v.sort();
+        v
     }
 
     pub fn some_pending(&self) -> Vec<u64> {
@@ -734,7 +810,7 @@ pub fn generate(rng: &mut Rng, small: bool, thorough: bool) -> Option<(Vec<u64>,
         2 => 5,
         3 => 25,
         _ => 20,
-    };
+    } + if rng.chance(12) { 100 } else { 0 };
     let h = Header { k, seeds: seeds.clone() };
     let nsteps = if small {
         rng.range(5, 18)
@@ -789,14 +865,38 @@ pub fn generate(rng: &mut Rng, small: bool, thorough: bool) -> Option<(Vec<u64>,
                         Ev::FindNodeCmd(p)
                     }
                 }
-                43..=56 => Ev::Establish(p),
-                57..=62 => Ev::Close(p),
+                43..=54 => Ev::Establish(p, rng.chance(50) as u64),
+                55..=57 => {
+                    // a second connection, preferably to a peer that has exactly one
+                    let one = s.with_connections(1);
+                    if !one.is_empty() && rng.chance(85) {
+                        Ev::Establish2(one[rng.below(one.len() as u64) as usize])
+                    } else {
+                        Ev::Establish2(p)
+                    }
+                }
+                58..=60 => {
+                    let any: Vec<u64> = s.with_connections(1).into_iter().chain(s.with_connections(2)).collect();
+                    if !any.is_empty() && rng.chance(80) {
+                        Ev::Close(any[rng.below(any.len() as u64) as usize])
+                    } else {
+                        Ev::Close(p)
+                    }
+                }
+                61..=62 => {
+                    let two = s.with_connections(2);
+                    if !two.is_empty() {
+                        Ev::CloseOne(two[rng.below(two.len() as u64) as usize], rng.below(2))
+                    } else {
+                        Ev::Establish2(p)
+                    }
+                }
                 63..=76 => {
                     let t = if rng.chance(50) { p } else { pick(rng, &groups, &all) };
                     Ev::Request(pick(rng, &groups, &all), t, rng.below(3))
                 }
                 77..=80 => Ev::InboundEof(p),
-                81..=85 => Ev::DialFail(p, rng.below(3)),
+                81..=85 => Ev::DialFail(p, rng.below(3), rng.chance(60) as u64),
                 86..=93 => Ev::FindNodeCmd(p),
                 94..=95 => Ev::PutToPeers(p),
                 96..=98 => Ev::Mgr(p, if rng.chance(80) { 1 } else { rng.below(4) }),
